@@ -39,6 +39,10 @@ func cmdVC(args []string) {
 		pats = append(pats, "./"+a)
 		ips = append(ips, modPath+"/"+a)
 	}
+	want := map[string]bool{}
+	for _, ip := range ips {
+		want[ip] = true
+	}
 	t0 := time.Now()
 	p, err := LoadProgram(*repo, pats)
 	if err != nil {
@@ -66,7 +70,7 @@ func cmdVC(args []string) {
 		if *only != "" && !strings.Contains(fc.Name, *only) {
 			continue
 		}
-		if fc.Trusted {
+		if fc.Trusted || !want[fc.Pkg] {
 			continue
 		}
 		g, err := VerifyFunc(p, fc)
